@@ -13,7 +13,7 @@ REQUIRED = ["CifModel.C02_text_protocol", "CifModel.C02_fold_line_progress", "Ci
             "CifModel.C02_presented_key_writable", "CifModel.C02_refused_key_unwritable_partial",
             "CifModel.C02_cex_key_first_line", "CifModel.C02_cex_key_first_line_refused", "CifModel.C02_key_boundary",
             "CifModel.C02_last_column_exact", "CifModel.C02_last_column_exact_doc", "CifModel.C02_lastLineLength_spec",
-            "CifModel.C02_clean_of_line_hypotheses", "CifModel.C02_cex_column_cr",
+            "CifModel.C02_clean_of_line_hypotheses", "CifModel.C02_cex_column_cr", "CifModel.C02_cex_cr_written_raw",
             "CifModel.C02_line_bound_chars", "CifModel.C02_line_hypotheses_chars", "CifModel.C02_charLength_le", "CifModel.C02_cex_line_units",
             "CifModel.C02_roundtrip_doc_nl", "CifModel.C02_line_bound_of_valid"]
 GEN = ["WriterConsts", "ErrCodes"]
